@@ -75,7 +75,16 @@ def schema_of(p: dict) -> dict:
     return {"type": "array", "items": s} if p["array"] else s
 
 
-def body_schema(ct: str, model: bool = False) -> dict:
+ARRAY_SCHEMAS = {
+    "items": {"type": "array", "items": {"$ref": "#/components/schemas/Item"}},          # List[Item] (dataclasses)
+    "matrix": {"type": "array", "items": {"type": "array", "items": {"type": "integer"}}},
+    "dicts": {"type": "array", "items": {"type": "object", "additionalProperties": True}},
+}
+
+
+def body_schema(ct: str, model: bool = False, array: str | None = None) -> dict:
+    if ct == J and array:
+        return ARRAY_SCHEMAS[array]
     if ct == J:
         return {"$ref": "#/components/schemas/Item"} if model else {"type": "object", "additionalProperties": True}
     if ct == MP:
@@ -107,7 +116,7 @@ def spec_of(ops: list[dict]) -> dict:
         if olevel:
             node["parameters"] = olevel
         if op["body"]:
-            rb: dict[str, Any] = {"content": {ct: {"schema": body_schema(ct, bool(op.get("json_model")))} for ct in op["body"]}}
+            rb: dict[str, Any] = {"content": {ct: {"schema": body_schema(ct, bool(op.get("json_model")), op.get("json_array"))} for ct in op["body"]}}
             if op["body_required"]:
                 rb["required"] = True
             node["requestBody"] = rb
@@ -156,7 +165,11 @@ def gen_scalar(rng, p: dict, in_path: bool) -> dict:
 
 def gen_value(rng, p: dict) -> dict:
     if p["array"]:
-        return {"t": "arr", "items": [gen_scalar(rng, p, False) for _ in range(rng.choice([0, 1, 2, 2, 3]))]}
+        items = [gen_scalar(rng, p, False) for _ in range(rng.choice([0, 1, 2, 2, 3]))]
+        if items and rng.random() < 0.4:     # the SAME object at several positions (equal items are built once)
+            items = items + [items[0]] if rng.random() < 0.5 else [items[0]] + items + [items[-1]]
+            return {"t": "arr", "items": items, "share": True}
+        return {"t": "arr", "items": items}
     return gen_scalar(rng, p, p["in"] == "path")
 
 
@@ -166,7 +179,48 @@ JSON_BODIES = [{"a": 1}, {"name": "x y", "tags": ["a", "b"], "n": {"k": True}}, 
 MODEL_BODIES = [{"a": 1}, {"a": -3, "name": "x y"}, {"a": 0, "name": "é", "tags": ["p", "q"]}, {"a": 7, "tags": []}]
 
 
-def gen_body(rng, ct: str, model: bool = False) -> dict:
+# Argument construction with SHARING: {"t": "share", "pool": [...], "layout": ...}: every pool entry is built ONCE
+# and the very same Python object (dataclass instance, dict, list) is placed wherever the layout says {"$": i}.
+# Sharing does not change the value, so the expected wire body is the layout with the references resolved.
+SHARE_LAYOUTS = [[{"$": 0}, {"$": 0}], [{"$": 0}, {"$": 1}, {"$": 0}], [{"$": 1}, {"$": 1}, {"$": 0}, {"$": 1}],
+                 [{"$": 0}], []]
+SHARE_POOLS = {
+    "items": [{"t": "model", "cls": "Item", "v": {"a": 1, "name": "x y"}},
+              {"t": "model", "cls": "Item", "v": {"a": -3, "tags": ["p", "q"]}}],
+    "matrix": [{"t": "json", "v": [1, 2]}, {"t": "json", "v": [3]}],
+    "dicts": [{"t": "json", "v": {"k": 1, "n": {"z": [1, 2]}}}, {"t": "json", "v": {"u": "é"}}],
+}
+DICT_SHARE = [{"x": {"$": 0}, "y": {"$": 0}, "l": [{"$": 1}, {"$": 1}]},
+              {"rows": [{"$": 1}, {"$": 1}, {"$": 0}], "first": {"$": 1}},
+              {"a": {"b": {"$": 0}}, "c": [{"$": 0}, [{"$": 0}]]}]
+
+
+def resolve_share(bv: dict) -> Any:
+    """the value a shared construction denotes (plain JSON)"""
+    pool = [x["v"] for x in bv["pool"]]
+
+    def go(n: Any) -> Any:
+        if isinstance(n, dict) and set(n) == {"$"}:
+            return pool[n["$"]]
+        if isinstance(n, dict):
+            return {k: go(x) for k, x in n.items()}
+        if isinstance(n, list):
+            return [go(x) for x in n]
+        return n
+    return go(bv["layout"])
+
+
+def body_json(bv: dict) -> Any:
+    return resolve_share(bv) if bv["t"] == "share" else bv["v"]
+
+
+def gen_body(rng, ct: str, model: bool = False, array: str | None = None) -> dict:
+    if ct == J and array:
+        lay = rng.choice(SHARE_LAYOUTS)
+        return {"t": "share", "pool": SHARE_POOLS[array], "layout": lay}
+    if ct == J and not model and rng.random() < 0.3:
+        return {"t": "share", "pool": [{"t": "json", "v": {"k": 1}}, {"t": "json", "v": [1, 2]}],
+                "layout": rng.choice(DICT_SHARE)}
     if ct == J:
         if model:
             return {"t": "model", "cls": "Item", "v": rng.choice(MODEL_BODIES)}
@@ -233,6 +287,8 @@ def gen_op(rng, idx: int, flavour: str = "plain") -> dict:
           "body_required": bool(body) and rng.random() < 0.5}
     if J in body and rng.random() < 0.4:
         op["json_model"] = True
+    elif J in body and rng.random() < 0.5:
+        op["json_array"] = rng.choice(["items", "items", "matrix", "dicts"])
     if flavour == "collide":
         k = rng.random()
         if k < 0.3 and vnames:         # F04c: a path-level parameter repeated at operation level
@@ -256,6 +312,29 @@ def gen_op(rng, idx: int, flavour: str = "plain") -> dict:
             params.append({"name": rng.choice(["body", "files", "content_type"]), "in": "query", "required": False,
                            "ty": "str", "array": False, "level": "op"})
     return op
+
+
+def cross_ops() -> list[dict]:
+    """deterministic cross product run every time: every body kind (none / json / dataclass / shared array /
+    multipart / form / octet / two content types) x an operation with path, required+optional query and
+    required+optional header parameters, so that each body kind meets each parameter location"""
+    def prm(name, loc, ty="str", required=False):
+        return {"name": name, "in": loc, "required": required, "ty": ty, "array": False, "level": "op"}
+    out = []
+    kinds = [("none", []), ("json", [J]), ("model", [J]), ("items", [J]), ("mp", [MP]), ("form", [FORM]),
+             ("oct", [OCT]), ("multi", [J, MP])]
+    for i, (k, body) in enumerate(kinds):
+        op = {"id": f"x{k}", "tag": "alpha", "method": "post" if body else "get",
+              "path": [["lit", f"/x{i}/"], ["var", "id"]],
+              "params": [prm("id", "path", required=True), prm("q", "query", required=True), prm("limit", "query", "int"),
+                         prm("X-Req", "header"), prm("If-Match", "header", required=True)],
+              "body": body, "body_required": False}
+        if k == "model":
+            op["json_model"] = True
+        if k == "items":
+            op["json_array"] = "items"
+        out.append(op)
+    return out
 
 
 def poisoned(op: dict) -> bool:
@@ -295,7 +374,7 @@ def assignments(rng, op: dict, max_enum: int = 5, n_random: int = 12, cap: int |
                 a["params"].append([p["in"], p["name"], gen_value(rng, p)])
         if op["body"] and (op["body_required"] or len(opt) in sub):
             ct = rng.choice(op["body"])
-            a["body"] = [ct, gen_body(rng, ct, bool(op.get("json_model")))]
+            a["body"] = [ct, gen_body(rng, ct, bool(op.get("json_model")), op.get("json_array"))]
         out.append(a)
     return out
 
@@ -322,9 +401,29 @@ def decode_value(v, leaf):
     if t == "datetime":
         return datetime.datetime.fromisoformat(v["v"])
     if t == "arr":
+        if v.get("share"):                  # equal items -> one object, reused
+            memo = {}
+            out = []
+            for x in v["items"]:
+                k = json.dumps(x, sort_keys=True)
+                if k not in memo:
+                    memo[k] = decode_value(x, leaf)
+                out.append(memo[k])
+            return out
         return [decode_value(x, leaf) for x in v["items"]]
     if t == "json":
-        return v["v"]
+        return json.loads(json.dumps(v["v"]))
+    if t == "share":
+        pool = [decode_value(x, leaf) for x in v["pool"]]
+        def go(n):
+            if isinstance(n, dict) and set(n) == {"$"}:
+                return pool[n["$"]]
+            if isinstance(n, dict):
+                return {k: go(x) for k, x in n.items()}
+            if isinstance(n, list):
+                return [go(x) for x in n]
+            return n
+        return go(v["layout"])
     if t == "model":
         # omitted optional fields are passed as an explicit None (the generated default of an optional array
         # field is [] rather than None: a model-generation matter, C02/C03, not request plumbing)
@@ -532,8 +631,8 @@ def oracle(op: dict, a: dict, obs: dict) -> list[str]:
             fails.append(f"a body was sent although none was supplied: {r['body'][0]}")
     else:
         ct, bv = a["body"]
-        if bv["t"] in ("json", "model"):
-            want_b = ["json", json.dumps(bv["v"], sort_keys=True, separators=(",", ":"), ensure_ascii=False)]
+        if bv["t"] in ("json", "model", "share"):
+            want_b = ["json", json.dumps(body_json(bv), sort_keys=True, separators=(",", ":"), ensure_ascii=False)]
         elif bv["t"] == "files":
             want_b = ["files", bv["v"]] if bv["v"] else ["none"]
         elif bv["t"] == "form":
@@ -580,8 +679,8 @@ def c_bytes(b: list) -> str:
 
 
 def c_bval(bv: dict) -> str:
-    if bv["t"] in ("json", "model"):
-        return f"(BJson {cstr(json.dumps(bv['v'], sort_keys=True, separators=(',', ':'), ensure_ascii=False))})"
+    if bv["t"] in ("json", "model", "share"):
+        return f"(BJson {cstr(json.dumps(body_json(bv), sort_keys=True, separators=(',', ':'), ensure_ascii=False))})"
     if bv["t"] == "files":
         return f"(BFiles {clist(cpair(cstr(k), c_bytes(b)) for k, b in bv['v'])})"
     if bv["t"] == "form":
@@ -669,6 +768,8 @@ def main(chk: Check, replay: dict | None = None) -> int:
     # corpus first (each witness in a client of its own)
     for c in load_corpus("C04"):
         batches.append(([solo(c["input"]["op"])], [(0, c["input"]["args"])]))
+    xops = cross_ops()
+    batches.append((xops, [(i, a) for i, op in enumerate(xops) for a in assignments(rng, op)]))
     n_specs = 60 if chk.thorough else 14
     n_collide = 30 if chk.thorough else 8
     idx = 0
